@@ -234,6 +234,16 @@ def p_expect_start(I, n, path, a, env):
     return var(OK, ("in", "attributes"))
 
 
+def p_expect_next(I, n, path, a, env):
+    """the next event, as far as the straight-line family goes: the start of a child element whose name the reader
+    inspects itself (Content / ContentId choose by the child's name)"""
+    I.eval(a[0], env)
+    r = Rd(I, "start:?", n)
+    name = ("st", "xml::name::OwnedName", (("local_name", r), ("namespace", ("in", "ns")), ("prefix", ("in", "prefix"))))
+    ev = ("varn", "xml::reader::events::XmlEvent::StartElement", (("name", name), ("attributes", ("in", "attributes")), ("namespace", ("in", "namespace"))))
+    return var(OK, ev)
+
+
 def p_expect_end(I, n, path, a, env):
     I.eval(a[0], env)
     I.eval(a[1], env)
@@ -270,7 +280,7 @@ def xml_prims():
                     ("end_element", p_end_element), ("write", p_write_event), ("error", p_error)):
         P.append((re.compile(XW.replace("<", r"<").replace(">", r">") + name + r"$"), h))
     for name, h in (("read_value_in_tag", p_read_value_in_tag), ("read_value", p_read_value), ("read_characters", p_read_characters),
-                    ("read_tag_contents", p_read_tag_contents), ("expect_start_with_name", p_expect_start), ("expect_end_with_name", p_expect_end),
+                    ("read_tag_contents", p_read_tag_contents), ("expect_start_with_name", p_expect_start), ("expect_end_with_name", p_expect_end), ("expect_next", p_expect_next),
                     ("read_base64_characters", p_read_base64), ("error", p_error)):
         P.append((re.compile(XR + name + r"$"), h))
     P.append((re.compile(r"core::str::<impl str>::parse$"), p_parse))
@@ -321,8 +331,6 @@ UNSUPPORTED = {
     "rbx_types::basic_types::ColorSequence": "space-separated token stream consumed with an explicit loop",
     "rbx_types::basic_types::NumberRange": "space-separated tokens split on read",
     "rbx_types::font::Font": "optional child elements selected by peeking at the next event",
-    "rbx_types::content::Content": "child element chosen by peeking (null / url / Object)",
-    "rbx_types::content::ContentId": "child element chosen by peeking (null / url / uri)",
     "core::option::Option<rbx_types::basic_types::CFrame>": "optional child element selected by peeking",
     "rbx_types::binary_string::BinaryString": "base64 text (third-party codec); the writer encodes the value through AsRef<[u8]>, which the field-identity check does not model",
     "rbx_types::basic_types::Color3uint8": "packed integer arithmetic (shifts / masks) on the text value",
@@ -355,7 +363,7 @@ def run(c, prog):
         except sym.Unsupported as e:
             c.violation(R, f"cannot-establish|{ty}", f"XmlType for {ty}: construct outside the interpreter's fragment: {e}", "", instance=inst)
             continue
-        M = shape.Matcher(N, lambda a, b: a == b)
+        M = shape.Matcher(N, lambda a, b: a == b or (b == "start:?" and a.startswith("start:")))
         M.collect = False
         M.optional_read_prims = {"chars"}
         M.return_sink = True
@@ -391,7 +399,17 @@ def run(c, prog):
     c.floor(R, n_ok, 15, "XmlType impls verified")
 
 
+def empty_of(t, base, assume):
+    """the empty string / vector, on a path where the writer established that `base` is empty"""
+    if t in (("vec", ()), C("")):
+        for a in assume:
+            if isinstance(a, tuple) and a and a[0] == "app" and a[1].endswith("is_empty") and a[2] and a[2][0] == base:
+                return True
+    return False
+
+
 def wrappers(t, base, assume):
     if t[0] == "st" and len(t[2]) == 1:
-        return t[2][0][1] == base or t[2][0][1] == fld(base, t[2][0][0])
+        inner = t[2][0][1]
+        return inner == base or inner == fld(base, t[2][0][0]) or empty_of(inner, base, assume) or empty_of(inner, fld(base, t[2][0][0]), assume)
     return False
